@@ -23,12 +23,8 @@ import onnx.numpy_helper
 import onnx.shape_inference
 
 ORIG_INFER_SHAPES = onnx.shape_inference.infer_shapes  # saved before anything can be patched
-try:  # value propagation through onnxruntime logs every failed run on stderr
-    import onnxruntime as _ort
-
-    _ort.set_default_logger_severity(4)
-except Exception:  # noqa: BLE001
-    pass
+# (onnxruntime is never imported in the parent process: its threads would not survive the fork of the
+#  worker pool; its stderr noise is silenced around the call instead)
 
 MODULES = [
     ("spox.opset.ai.onnx.v17", "", 17),
@@ -713,6 +709,12 @@ def gen_call(rng, op: Op, force: Optional[str] = None) -> dict:
             "args": args, "attrs": attrs, "out_count": None, "family": family}
     if fix and family in ("plain", "reuse") and rng.random() < 0.75:
         fix(rng, call, base)
+    if op.name == "SplitToSequence" and len(call["args"]) > 1 and call["args"][1] is not None:
+        # onnx's shape inference divides by a constant `split` of 0 (SIGFPE kills the process - also the
+        # user's): excluded from generation
+        c = call["vars"][call["args"][1]]["const"]
+        if c is not None:
+            c["data"] = [x if x != 0 else 1 for x in c["data"]]
     if constfed:
         constify(rng, call)
     # variadic outputs
